@@ -12,7 +12,8 @@ use std::collections::BTreeMap;
 
 /// denoms over a tiny alphabet with heavy prefix sharing; the first eight form four splits of the
 /// same concatenation ("abc|defg" = "abcd|efg" = "ab|cdefg" = "abcde|fg")
-pub const DENOM_POOL: [&str; 14] = ["abc", "defg", "abcd", "efg", "ab", "cdefg", "abcde", "fg", "ua", "uab", "uabc", "b", "ab1", "zzz"];
+/// (the last three carry upper-case letters, like IBC voucher denoms: registry keys are the exact bytes)
+pub const DENOM_POOL: [&str; 17] = ["abc", "defg", "abcd", "efg", "ab", "cdefg", "abcde", "fg", "ua", "uab", "uabc", "b", "ab1", "zzz", "ibc/AB12", "Uab", "ABC"];
 
 pub const FACTORY_HEAD: usize = 40;
 pub const FACTORY_OP: usize = 12;
